@@ -362,6 +362,17 @@ func c20EndToEnd(c *Ctx, im *Impl) {
 	Must(err)
 	pool := x509.NewCertPool()
 	pool.AddCert(caCert)
+	// verification functions built NOW and used at the very end, on a certificate issued later: a certificate
+	// carries its names for whoever checks it, also a verifier that has existed for a while (a node builds its
+	// TLS configurations once, at start-up, and certificates are issued afterwards)
+	earlyLg := logger.NewReceptorLogger("")
+	earlyLg.SetOutput(io.Discard)
+	earlyBuilt := time.Now()
+	earlyIDs := []string{"late-node", "Late-Node", "other-late"}
+	early := map[string]func([][]byte, [][]*x509.Certificate) error{}
+	for _, id := range earlyIDs {
+		early[id] = netceptor.ReceptorVerifyFunc(&tls.Config{RootCAs: pool, ClientCAs: pool}, nil, id, netceptor.ExpectedHostnameTypeReceptor, netceptor.VerifyServer, earlyLg)
+	}
 	// a second, unrelated CA: its certificates must not verify
 	otherCA, err := certificates.CreateCA(&certificates.CertOptions{CommonName: "other CA", Bits: 2048}, &certificates.RsaWrapper{})
 	Must(err)
@@ -543,6 +554,34 @@ func c20EndToEnd(c *Ctx, im *Impl) {
 		}
 		_ = otherCA
 		im.Sample(map[string]interface{}{"kind": "end-to-end", "case": rec})
+	}
+	// a certificate issued now, judged by the verifiers built at the start
+	{
+		if d := time.Since(earlyBuilt); d < 2500*time.Millisecond { // the validity starts at a whole second
+			time.Sleep(2500*time.Millisecond - d)
+		}
+		reqFile, crtFile := filepath.Join(tmp, "late.req"), filepath.Join(tmp, "late.crt")
+		ids := []string{"late-node", "other-late"}
+		err := certificates.MakeReq(&certificates.CertOptions{CommonName: "cn", CertNames: certificates.CertNames{NodeIDs: ids}}, keyFile, "", reqFile, osw)
+		if err == nil {
+			err = certificates.SignReq(&certificates.CertOptions{}, caCrt, caKey, reqFile, crtFile, true, osw)
+		}
+		im.Count("e2e late certificate, early verifier", true)
+		im.Hist("e2e:late-certificate-early-verifier")
+		if err != nil {
+			im.Violate("issuing a certificate with default validity fails: "+err.Error(), "e2e-makereq", ids)
+		} else {
+			cert, err := certificates.LoadCertificate(crtFile, osw)
+			Must(err)
+			for _, id := range earlyIDs {
+				verr := early[id]([][]byte{cert.Raw}, nil)
+				want := id == "late-node" || id == "other-late"
+				if (verr == nil) != want {
+					im.Violate(fmt.Sprintf("a verifier built %v before the certificate was issued: ReceptorVerifyFunc(expected=%q) = %v, want accept=%v (certificate names %q, valid from %v)",
+						time.Since(earlyBuilt).Round(time.Second), id, verr, want, ids, cert.NotBefore.Format(time.RFC3339)), "e2e-verify", ids)
+				}
+			}
+		}
 	}
 	// same names, other authority
 	{
